@@ -35,9 +35,9 @@ TECHNIQUE = ("execution of the real DependencyManager on opaque symbolic values:
              "(shapes enumerated by solver-checked forks) + exhaustive skeleton enumeration of bounded histories against a reference model")
 BOUNDS = {
     "quick": "induction: every key kind (list, simple, simple+default, unifier-style, call-counting) x lock_on_get x cache x "
-             "{add, get_dependency, get_optional_dependency}, 0..2 dependencies, one bystander key (kind rotating); histories: all 8^4 = 4096 "
+             "{add, get_dependency, get_optional_dependency}, 0..2 dependencies, one bystander key (kind rotating, 0..1 dependencies); histories: all 8^4 = 4096 "
              "skeletons of 4 operations {add, get_dependency} over 4 keys, for 6 assignments of kinds/flags to the 4 keys",
-    "thorough": "induction: additionally every bystander kind; histories: all 12^4 skeletons of 4 operations {add, get_dependency, "
+    "thorough": "induction: additionally every bystander kind with 0..2 dependencies; histories: all 12^4 skeletons of 4 operations {add, get_dependency, "
                 "get_optional_dependency} over 4 keys for 12 assignments, all 8^5 skeletons of 5 operations for 6 assignments, and all 4^8 "
                 "skeletons of 8 operations {add, get} over 2 keys for 10 pairs",
 }
@@ -264,7 +264,8 @@ def configs(tier, seed):
                 for op in OPS3:
                     bys = KINDS if tier == "thorough" else [KINDS[(KINDS.index(kind) + 1 + OPS3.index(op)) % len(KINDS)]]
                     for bk in bys:
-                        out.append(dict(mode="ind", kind=kind, lock=lock, cache=cache, op=op, bkind=bk, block=not lock if bk != kind else lock, bcache=True))
+                        out.append(dict(mode="ind", kind=kind, lock=lock, cache=cache, op=op, bkind=bk, block=not lock if bk != kind else lock, bcache=True,
+                                        bmax=1 if tier == "quick" else 2))
     if tier == "quick":
         for keys in _assignments(6):
             for first in range(8):
@@ -379,8 +380,8 @@ class _Conc:
             raise AssertionError("model outside the state invariant")
 
 
-def _sym_key_state(e, pfx, kind, lock, cache):
-    n = e.int(pfx + "n", 0, 2)
+def _sym_key_state(e, pfx, kind, lock, cache, maxn=2):
+    n = e.int(pfx + "n", 0, maxn)
     entry, cached, locked, alias = e.bool(pfx + "entry"), e.bool(pfx + "cached"), e.bool(pfx + "locked"), e.bool(pfx + "alias")
     e.assume(_valid(kind, lock, cache, n, entry, cached, locked))
     e.assume(implies(alias, all_of(cached, kind == "list")))  # only a cached list can be the dependency list itself
@@ -445,7 +446,7 @@ def _ind_body(cfg):
         K = _make_key(kind, lock, cache, 0, dflt, calls)
         B = _make_key(bkind, block, bcache, 1, dflt, calls)
         sk = _sym_key_state(e, "k_", kind, lock, cache)
-        sb = _sym_key_state(e, "b_", bkind, block, bcache)
+        sb = _sym_key_state(e, "b_", bkind, block, bcache, cfg.get("bmax", 2))
         dm = DependencyManager()
         cvK = _install(dm, K, kind, sk, dflt, calls, 0)
         _install(dm, B, bkind, sb, dflt, calls, 1)
@@ -536,10 +537,11 @@ def _run_ind(cfg, ctx):
     bl = z3.Bool
     dom = []
     for pfx, (k, lo, ca) in (("k_", (kind, lock, cache)), ("b_", (cfg["bkind"], cfg["block"], cfg["bcache"]))):
+        maxn = 2 if pfx == "k_" else cfg.get("bmax", 2)
         e0 = Engine(width=W)
         n = SInt(e0, iv(pfx + "n"))
         ent, cad, lck, ali = (SBool(e0, bl(pfx + x)) for x in ("entry", "cached", "locked", "alias"))
-        dom += [n.e >= 0, n.e <= 2, _as_term(_valid(k, lo, ca, n, ent, cad, lck)), _as_term(implies(ali, all_of(cad, k == "list")))]
+        dom += [n.e >= 0, n.e <= maxn, _as_term(_valid(k, lo, ca, n, ent, cad, lck)), _as_term(implies(ali, all_of(cad, k == "list")))]
     ctx.prove(f"{desc}: the {len(paths)} explored state shapes cover every state satisfying the invariant", dom,
               z3.Or(*[z3.And(*p.pc) for p in paths]), None)
     ctx.witness(f"{desc}: invariant admits a state with a dependency present", dom + [iv("k_n") >= 1])
